@@ -46,7 +46,7 @@ ASSUMPTIONS = [
 REQUIRED_CLAUSES = [
     "returns-normally", "matches-reference", "result-available", "no-other-major", "no-later-minor", "patch-suffix-exact-only",
     "master-only-when-newer", "order-invariance", "unrelated-invariance",
-    "git-branch-checked-out", "git-tag-fallback", "git-error-when-nothing-qualifies", "git-error-is-reported", "git-worktree-matches-head",
+    "git-branch-checked-out", "git-tag-fallback", "git-error-when-nothing-qualifies", "git-error-is-reported", "git-worktree-matches-head", "git-knows-the-current-remote-branches",
 ]
 _RULES = ["exact-suffix", "exact-patch", "exact-minor", "prior-minor", "prior-minor-0", "major", "master-newer", "master-unknown", "none", "gray-master-or-none"]
 REQUIRED_FEATURES = {
@@ -644,6 +644,16 @@ def git_case(ctx, case, root):
     repo_dir = r.repo_dir
     local, remote, tags = read_refs(repo_dir)
     exp_local, exp_remote = model_refs(case)
+    stale = sorted(set(remote) - set(exp_remote))
+    if case["scenario"] == "clone-fetch" and sorted(local) == sorted(exp_local) and stale and set(stale) <= set(case["dropped_remote"]) and not (set(exp_remote) - set(remote)):
+        # rally itself refreshed the clone (RallyRepository fetches when it is created): a branch that was deleted in the remote repository is
+        # no branch of the repository any more - it must be gone from what rally chooses from
+        ctx.clause("git-knows-the-current-remote-branches")
+        problems.append(("git-knows-the-current-remote-branches", f"clone-fetch repository: after rally's own fetch the clone still lists the remote branch(es) {stale} that were deleted in the "
+                                                                   f"remote repository (remote now: {sorted(exp_remote)})"))
+        remote = [b for b in remote if b not in stale]
+    elif case["scenario"] == "clone-fetch" and case["dropped_remote"]:
+        ctx.clause("git-knows-the-current-remote-branches")
     if sorted(local) != sorted(exp_local) or sorted(remote) != sorted(exp_remote):
         raise RuntimeError(f"harness: refs in the clone {sorted(local)} / {sorted(remote)} differ from the model {sorted(exp_local)} / {sorted(exp_remote)} for {case}")
     tags_known = tags
